@@ -165,7 +165,7 @@ def run(chk, tier, seed):
     rng   = random.Random(seed * 104729 + 7)
 
     # ---- 1. design model ------------------------------------------------------
-    mcs = SCENARIOS[:9] if quick else SCENARIOS[:11] + SCENARIOS[12:]
+    mcs = SCENARIOS[:9] + SCENARIOS[-2:] if quick else SCENARIOS[:11] + SCENARIOS[12:]
     for name, tasks, cancels in mcs:
         res = tlc.run('Executor', 'MCX', 'MCX.cfg', workers=16, timeout=1500,
                       extra_files=mc_files(tasks, cancels))
